@@ -350,6 +350,23 @@ def Spec.iter (g : Spec) (fuel : Nat) : Option (List DNA × Bool) :=
   | 0 => some ([], false)
   | fuel + 1 => (iterFrom g fuel g.first).map fun (l, e) => (g.first :: l, e)
 
+/-! ### pg.geno.Sweeping (sweeping.py): propose = `next_dna(last proposed)`, StopIteration at the end -/
+
+/-- `Sweeping._propose`: `none` = an exception other than StopIteration, `some none` =
+StopIteration, `some (some d)` = the proposal. -/
+def sweepPropose (g : Spec) : Option DNA → Option (Option DNA)
+  | none => some (some g.first)
+  | some d => g.next d
+
+/-- Up to `fuel` proposals of a fresh Sweeping generator, starting from state `last`. -/
+def sweepRun (g : Spec) : Nat → Option DNA → Option (List DNA × Bool)
+  | 0, _ => some ([], false)
+  | fuel + 1, last =>
+    match sweepPropose g last with
+    | none => none
+    | some none => some ([], true)
+    | some (some d) => (sweepRun g fuel (some d)).map fun (l, e) => (d :: l, e)
+
 /-! ### random_dna over a recorded oracle (categorical.py:513-552, space.py:207-226,
 numerical.py:125-131) -/
 
